@@ -26,6 +26,16 @@ TTC_STEP = [None, None,
             {'type': 'addition', 'lhs': {'type': 'function', 'name': 'Exponential', 'arguments': [0.1]},
              'rhs': {'type': 'number', 'value': 2.0}}]
 
+def _substrings(word, least=1):
+    return sorted({word[i:j] for i in range(len(word)) for j in range(i + least, len(word) + 1)})
+
+# names that contain one another (an implementation that finds a declaration with `in` on a string, with a prefix
+# test or with str.replace answers for the wrong asset / field / step); no single capital letter (C, I, A, E are
+# tokens of the MAL grammar), no step name with a capital initial (the legacy format lower-cases the first letter)
+NESTED_ASSETS = _substrings('Nodes', 2)
+NESTED_FIELDS = _substrings('parte') + _substrings('holdi')
+NESTED_STEPS = ['s', 'sS', 'sSs', 'ss', 'sSS']
+
 class LangGen:
     def __init__(self, rnd: random.Random, n_assets=None, knobs=None):
         self.r = rnd
@@ -174,6 +184,11 @@ class LangGen:
     def gen(self):
         r = self.r
         self.names = [f'T{i}' for i in range(self.n)]
+        self.nested = r.random() < self.k.get('nested_names', 0.25)
+        field_names = None
+        if self.nested:
+            self.names = r.sample(NESTED_ASSETS, self.n) if self.n <= len(NESTED_ASSETS) else self.names
+            field_names = r.sample(NESTED_FIELDS, len(NESTED_FIELDS))
         self.parent = {}
         for i, nm in enumerate(self.names):
             self.parent[nm] = r.choice(self.names[:i]) if i and r.random() < 0.55 else None
@@ -197,7 +212,9 @@ class LangGen:
                 if any(a['name'] == nm and (a['leftAsset'], a['rightAsset']) == (la, ra) for a in self.assocs) or \
                         (la == ra and any(a['name'] == nm and {a['leftAsset'], a['rightAsset']} == {la} for a in self.assocs)):
                     nm = f'Assoc{i}x'
-            lf, rf = f'f{fcount}', f'f{fcount + 1}'; fcount += 2
+            lf, rf = f'f{fcount}', f'f{fcount + 1}'
+            if field_names and fcount + 1 < len(field_names): lf, rf = field_names[fcount], field_names[fcount + 1]
+            fcount += 2
             if self.assocs and r.random() < self.k['reuse_fields']:
                 # MAL only requires a field name to be unique among the fields one asset hierarchy owns: the owner of the
                 # right field is the left asset and vice versa.  Re-use names of other associations where that is legal
@@ -242,7 +259,7 @@ class LangGen:
                     'rightAsset': ra, 'rightField': rf, 'rightMultiplicity': {'min': rm[0], 'max': rm[1]}}
             self.assocs.append(cand)
         # steps (names from a small pool so that redefinitions happen); first without reaches
-        pool = [f's{i}' for i in range(5)]
+        pool = list(NESTED_STEPS) if self.nested else [f's{i}' for i in range(5)]
         self.steps = {nm: [] for nm in self.names}
         for nm in self.names:
             inherited = self.steps_of(nm)
@@ -319,8 +336,9 @@ def chain_language(rnd: random.Random):
     mix of absent / '->' / '+>' / no-reaches declarations (the shapes C03 singles out)"""
     depth = rnd.randint(3, 6)
     names = [f'T{i}' for i in range(depth)]
-    assocs = [{'name': 'Link', 'meta': {}, 'leftAsset': 'T0', 'leftField': 'up', 'leftMultiplicity': {'min': 0, 'max': None},
-               'rightAsset': 'T0', 'rightField': 'down', 'rightMultiplicity': {'min': 0, 'max': None}}]
+    if rnd.random() < 0.25: names = rnd.sample(NESTED_ASSETS, depth)
+    assocs = [{'name': 'Link', 'meta': {}, 'leftAsset': names[0], 'leftField': 'up', 'leftMultiplicity': {'min': 0, 'max': None},
+               'rightAsset': names[0], 'rightField': 'down', 'rightMultiplicity': {'min': 0, 'max': None}}]
     pool = ['s0', 's1', 's2']
     def expr():
         tgt = {'type': 'attackStep', 'name': rnd.choice(pool)}
